@@ -51,6 +51,11 @@ type caseSpec struct {
 	Seed       uint64   `json:"seed"`
 	Widen      bool     `json:"widen"` // delay rules active at repl.sender.after_seq
 	Adv        *advSpec `json:"adversary,omitempty"`
+	// multi-reader family
+	Readers   int  `json:"readers,omitempty"`     // real Receivers attached to the one Sender
+	Victims   int  `json:"victims,omitempty"`     // how many of them are removed / cut / replaced during the stream
+	Slow      bool `json:"slow_reader,omitempty"` // an additional raw reader that drains slowly (widens the broadcast loop)
+	MaxEvents int  `json:"max_events,omitempty"`
 }
 
 type caseResult struct {
@@ -67,6 +72,7 @@ type caseResult struct {
 	AdvNote     string
 	NativeDrops int64 // wal-local ErrWALDropped (not part of the property)
 	ReaderLog   []string
+	Events      int // multi-reader family: remove / cut / re-handshake actions performed
 	WriterLog   []string
 }
 
@@ -114,6 +120,22 @@ func genCases(c *vlib.Ctx) []caseSpec {
 			// a checkpoint must exist before the trigger
 			sp.Adv.At += cp
 		}
+		out = append(out, sp)
+		id++
+	}
+	// multi-reader family: own PRNG stream so that the two families above keep
+	// their case lists
+	mr := c.Rand("multi-cases")
+	nm := c.N(30, 450)
+	for i := 0; i < nm; i++ {
+		readers := 2 + i%4 // 2..5
+		victims := 1
+		if readers >= 4 && mr.IntN(2) == 0 {
+			victims = 2
+		}
+		sp := caseSpec{ID: id, Mode: "multi", Producers: 1 + mr.IntN(4), Entries: 500 + mr.IntN(500), CPInterval: 1 + mr.IntN(50),
+			BufSize: 10000, MaxPayload: []int{64, 256, 512}[mr.IntN(3)], Seed: mr.Uint64(),
+			Readers: readers, Victims: victims, Slow: i%3 != 2, MaxEvents: 400}
 		out = append(out, sp)
 		id++
 	}
@@ -191,6 +213,9 @@ func installWidening() {
 }
 
 func runCase(sp caseSpec) (res caseResult) {
+	if sp.Mode == "multi" {
+		return runMultiCase(sp)
+	}
 	res.Spec = sp
 	per := genPayloads(sp)
 	queued := map[[32]byte]*genEntry{}
@@ -222,7 +247,7 @@ func runCase(sp caseSpec) (res caseResult) {
 				return
 			}
 			defer pxB.stop()
-			rcvB = newReceiver("reader-B", pxB.addr(), &recorder{}, zerolog.Nop())
+			rcvB = newReceiver("reader-B", pxB.addr(), &recorder{}, zerolog.Nop(), 25*time.Millisecond)
 		}
 		adv = newAdversary(*sp.Adv, tp)
 	}
@@ -233,7 +258,7 @@ func runCase(sp caseSpec) (res caseResult) {
 	}
 	defer px.stop()
 	rlog := &logSink{}
-	rcv := newReceiver("reader-A", px.addr(), rec, rlog.logger())
+	rcv := newReceiver("reader-A", px.addr(), rec, rlog.logger(), 25*time.Millisecond)
 	if err := rcv.Start(g.ctx); err != nil {
 		res.Inconcl = "receiver start: " + err.Error()
 		return
@@ -407,6 +432,61 @@ func readerView(s *session) []rframe {
 
 func hx(h [32]byte) string { return hex.EncodeToString(h[:8]) }
 
+// app is one applied entry attributed to the frame that carried it.
+type app struct {
+	Sess  int
+	RF    rframe
+	Label string
+	SIdx  int
+}
+
+// attribute maps the apply log of one reader to the frames the proxy wrote to it:
+// the entries applied on a connection are the first entry frames of that
+// connection's byte stream (the reader handles a connection sequentially). A
+// mismatch with the logged payload hashes is returned as bad.
+func attribute(sessions []*session, log []appliedRec) (apps []app, firstConn map[string]any, bad map[string]any) {
+	for i, s := range sessions {
+		lo := s.AppliedAtAccept
+		hi := len(log)
+		if i+1 < len(sessions) {
+			hi = sessions[i+1].AppliedAtAccept
+		}
+		var ents []rframe
+		for _, rf := range readerView(s) {
+			if rf.F.IsEntry {
+				ents = append(ents, rf)
+			}
+		}
+		for j := lo; j < hi; j++ {
+			k := j - lo
+			if k >= len(ents) || ents[k].F.Hash != log[j].Hash {
+				return nil, nil, map[string]any{"session": s.Idx, "apply_index": j, "applied_head": log[j].Head,
+					"entries_on_wire": len(ents), "applied_in_session": hi - lo}
+			}
+			a := app{Sess: s.Idx, RF: ents[k], Label: "desynced", SIdx: -1}
+			if ents[k].Chunk >= 0 {
+				a.Label = s.Chunks[ents[k].Chunk].Label
+				a.SIdx = s.Chunks[ents[k].Chunk].SIdx
+			}
+			apps = append(apps, a)
+		}
+		if i == 0 {
+			n := hi - lo
+			var tail []uint64
+			for k := n - 6; k < n; k++ {
+				if k >= 0 && k < len(ents) {
+					tail = append(tail, ents[k].F.Seq)
+				}
+			}
+			firstConn = map[string]any{"entries_forwarded": len(ents), "entries_applied": n, "last_applied_sequences": tail}
+			if n < len(ents) {
+				firstConn["first_forwarded_entry_not_applied"] = ents[n].F.Seq
+			}
+		}
+	}
+	return apps, firstConn, nil
+}
+
 func evaluate(res *caseResult, sp caseSpec, queued map[[32]byte]*genEntry, log []appliedRec, sessions []*session, adv *adversary, st map[string]interface{}) {
 	res.Applied = len(log)
 	res.Sessions = len(sessions)
@@ -454,53 +534,10 @@ func evaluate(res *caseResult, sp caseSpec, queued map[[32]byte]*genEntry, log [
 	}
 
 	// attribute applied entries to connections and to frames on the wire
-	type app struct {
-		Sess  int
-		RF    rframe
-		Label string
-		SIdx  int
-	}
-	var apps []app
-	var firstConn map[string]any // what the reader did on the first connection
-	for i, s := range sessions {
-		lo := s.AppliedAtAccept
-		hi := len(log)
-		if i+1 < len(sessions) {
-			hi = sessions[i+1].AppliedAtAccept
-		}
-		var ents []rframe
-		for _, rf := range readerView(s) {
-			if rf.F.IsEntry {
-				ents = append(ents, rf)
-			}
-		}
-		for j := lo; j < hi; j++ {
-			k := j - lo
-			if k >= len(ents) || ents[k].F.Hash != log[j].Hash {
-				add(sigWirePrefix, map[string]any{"session": s.Idx, "apply_index": j, "applied_head": log[j].Head,
-					"entries_on_wire": len(ents), "applied_in_session": hi - lo})
-				return
-			}
-			a := app{Sess: s.Idx, RF: ents[k], Label: "desynced", SIdx: -1}
-			if ents[k].Chunk >= 0 {
-				a.Label = s.Chunks[ents[k].Chunk].Label
-				a.SIdx = s.Chunks[ents[k].Chunk].SIdx
-			}
-			apps = append(apps, a)
-		}
-		if i == 0 {
-			n := hi - lo
-			var tail []uint64
-			for k := n - 6; k < n; k++ {
-				if k >= 0 && k < len(ents) {
-					tail = append(tail, ents[k].F.Seq)
-				}
-			}
-			firstConn = map[string]any{"entries_forwarded": len(ents), "entries_applied": n, "last_applied_sequences": tail}
-			if n < len(ents) {
-				firstConn["first_forwarded_entry_not_applied"] = ents[n].F.Seq
-			}
-		}
+	apps, firstConn, bad := attribute(sessions, log)
+	if bad != nil {
+		add(sigWirePrefix, bad)
+		return
 	}
 
 	// ---- rules over what was applied (both modes)
@@ -629,7 +666,8 @@ func checkC24(c *vlib.Ctx) {
 	c.Rule("honest cases: 1-16 producer goroutines append 2000 unique payloads (random sizes, AppendRaw/AppendRawWithMeta mix) through a real wal.Writer -> replication hook -> Sender; " +
 		"checkpoint interval 1-50, sender buffer 64/512/10000, two thirds with delay rules at repl.sender.after_seq; loopback proxy forwards untouched. " +
 		"adversary cases: 400 entries, one scripted wire attack (15 kinds: flip payload/raw/length, bump sequence, strip tag, duplicate now/later, withhold (+forged / +replayed checkpoint), swap, splice from a second reader's session, replay/duplicate checkpoint) at a random entry index. " +
-		"distinct non-trivial = honest case with >=100 entries applied or a verdict, adversary case whose attack reached a live connection")
+		"multi-reader cases: 2-5 real Receivers (plus, in two thirds, a raw reader draining ~150us per frame through 4 KiB socket buffers) on one Sender, 500-1000 entries from 1-4 producers; one or two of the readers are repeatedly removed (Sender.RemoveReader), cut (connection closed) or replaced by a new handshake under the same id while the stream runs (up to 400 events, they reconnect after 3 ms); an end-of-stream sentinel entry closes the run. " +
+		"distinct non-trivial = honest case with >=100 entries applied or a verdict, adversary case whose attack reached a live connection, multi-reader case with at least one disturbance event")
 	c.Assume("generator ground truth: the replicated payload of AppendRawWithMeta is [0x01][len16][db][payload], of AppendRaw the payload itself")
 	c.Assume("the harness acceptor reproduces Coordinator.handleReplicateSync/AcceptReplicationConnection (HMAC + nonce check, PrepareReader, ack, ActivateReader); the hook wiring is copied from Coordinator.StartReplication")
 	c.Assume("the reader is sequential per connection: entries applied on a connection are matched to the first entry frames of the byte stream the proxy wrote to it (checked, mismatch is reported)")
@@ -671,8 +709,13 @@ func checkC24(c *vlib.Ctx) {
 		report(c, r)
 	}
 	c.Count("hook_after_seq_hits", verifhook.Hits(hookAfterSeq))
+	pr := probeReplaceSameID()
+	c.Extra("probe_rehandshake_same_id", pr)
+	if b, _ := pr["new_connection_removed_by_writer"].(bool); b {
+		c.Count("probe_rehandshake_same_id_new_connection_removed_by_writer", 1)
+	}
 	raceSubRun(c)
-	c.Floor(c.N(60, 1200))
+	c.Floor(c.N(80, 1500))
 }
 
 func report(c *vlib.Ctx, r caseResult) {
@@ -697,6 +740,13 @@ func report(c *vlib.Ctx, r caseResult) {
 		if r.RecvErrors > 0 || r.Sessions > 1 {
 			c.Count("honest_cases_with_connection_drop", 1)
 		}
+	} else if sp.Mode == "multi" {
+		c.Count("multi_reader_connections", int64(r.Sessions)) // 1 per untouched reader + 1 per re-attachment of a disturbed one
+		c.Count("multi_reader_disturbance_events", int64(r.Events))
+		if r.Landed {
+			c.Nontrivial(fmt.Sprintf("multi/%d/%d/%v/%d/%d", sp.Readers, sp.Victims, sp.Slow, sp.CPInterval, sp.Seed))
+			c.Count("multi_cases_with_disturbance", 1)
+		}
 	} else {
 		if r.Landed {
 			c.Count("attacks_landed", 1)
@@ -709,11 +759,14 @@ func report(c *vlib.Ctx, r caseResult) {
 			c.Count("attacks_not_landed", 1)
 		}
 	}
+	if len(r.Violations) > 0 {
+		c.Count("cases_with_violation_"+sp.Mode, 1)
+	}
 	for _, v := range r.Violations {
 		c.Violation(v.Sig, v.Detail)
 	}
 	c.Sample(map[string]any{"case": sp.ID, "mode": sp.Mode, "producers": sp.Producers, "applied": r.Applied, "queued": r.Queued,
-		"dropped": r.Dropped, "connections": r.Sessions, "receiver_rejections": r.RecvErrors, "landed": r.Landed})
+		"dropped": r.Dropped, "connections": r.Sessions, "receiver_rejections": r.RecvErrors, "landed": r.Landed, "note": r.AdvNote})
 }
 
 // replayC24 re-runs the generated inputs of a recorded case. The schedule is not
